@@ -665,7 +665,10 @@ class Daemon(object):
         if not force:
             if hasattr(obj_or_class, "_pyroId") and obj_or_class._pyroId != "":  # check for empty string is needed for Cython
                 pyro_id = obj_or_class._pyroId
-                if pyro_id and self.objectsById.get(pyro_id) is obj_or_class:
+                registered = self.objectsById.get(pyro_id)
+                if isinstance(registered, weakref.ref):
+                    registered = registered()   # weakly registered object
+                if pyro_id and registered is obj_or_class:
                     raise errors.DaemonError("object or class already has a Pyro id")
             if objectId in self.objectsById:
                 raise errors.DaemonError("an object or class is already registered with that id")
